@@ -4,6 +4,7 @@ from __future__ import annotations
 from mc import lattice, spec as S, model as M, rp66 as R
 from mc.engine import Outcome, sha
 from mc.schema import KINDS
+from mc.props import c04
 
 ID = 'C05'
 ENGINE = 'E1 choice-point explorer, deviation-bounded over {full, bare} default objects'
@@ -36,7 +37,21 @@ def body(ctx, shard):
     if res['failed_at'] is not None:
         return Outcome('build-raised', [], False, digest=res['status'][-1][:50])
     if res['write'] != 'ok':
-        return Outcome('write-raised', [], False, digest=res['write'][:50])
+        # the write was rejected: repair the object through the setters, write the same objects again and compare
+        # the second file with the model of the repaired specification
+        data, sp2 = c04.repaired_rewrite(sp, info, shard)
+        if data is None:
+            return Outcome('write-raised', [], False, digest=res['write'][:50])
+        viol = []
+        try:
+            lfs = R.split_logical_files(R.parse_physical(data))
+            m = M.Model(sp2)
+            for code, d in M.check_inventory(m, m.lfs[0], lfs[0]) + M.check_attrs(m, m.lfs[0], lfs[0]):
+                viol.append((f"C05:{code}:write-after-rejected-write", f"{d[:300]} | first write: {res['write'][:80]} | "
+                                                                       f"kind={shard['kind']}"))
+        except R.FormatError as e:
+            viol.append((f"C05:unparsable:{e.code}:write-after-rejected-write", f"{e} | {shard}"))
+        return Outcome('write-raised:repaired-and-rewritten', viol, True, digest=sha(data))
     viol = []
     try:
         lfs = R.split_logical_files(R.parse_physical(res['data']))
